@@ -68,6 +68,9 @@ type stdioClientTransport struct {
 	// processDone is closed by processWatcher once Cmd.Wait has returned (Wait must be called only once).
 	processDone chan struct{}
 
+	// readerDone is closed when readLoop has ended: nothing will answer pending requests any more.
+	readerDone chan struct{}
+
 	sessionID string
 	logger    Logger
 
@@ -179,6 +182,7 @@ func (t *stdioClientTransport) startProcess() error {
 	t.decoder = json.NewDecoder(stdout)
 
 	t.processDone = make(chan struct{})
+	t.readerDone = make(chan struct{})
 
 	// Start background goroutines.
 	go t.readLoop()
@@ -252,6 +256,8 @@ func (t *stdioClientTransport) sendRequest(ctx context.Context, req *JSONRPCRequ
 		return nil, fmt.Errorf("request timeout after %v", t.timeout)
 	case <-t.ctx.Done():
 		return nil, fmt.Errorf("transport closed")
+	case <-t.readerDone:
+		return nil, fmt.Errorf("server closed its output stream")
 	}
 }
 
@@ -315,6 +321,7 @@ func (t *stdioClientTransport) sendResponse(ctx context.Context, resp *JSONRPCRe
 
 // readLoop continuously reads messages from stdout.
 func (t *stdioClientTransport) readLoop() {
+	defer close(t.readerDone)
 	defer func() {
 		if r := recover(); r != nil {
 			t.logger.Errorf("readLoop panic: %v", r)
@@ -324,7 +331,8 @@ func (t *stdioClientTransport) readLoop() {
 	for !t.closed.Load() {
 		var rawMessage json.RawMessage
 		if err := t.decoder.Decode(&rawMessage); err != nil {
-			if err == io.EOF || t.closed.Load() {
+			// io.ErrUnexpectedEOF: the stream ended inside a message; like io.EOF it is final.
+			if err == io.EOF || err == io.ErrUnexpectedEOF || t.closed.Load() {
 				break
 			}
 			t.logger.Errorf("Error reading message: %v", err)
